@@ -611,6 +611,28 @@ static void s3_child(void *arg)
         else emit(" ok %d %ld %ld", cb ? 16 : 0, (long)((const char *)mixw[0][0] - (const char *)s->buf), (long)(s->ptr - (const char *)s->buf));
         ckd_free_2d(mixw);
         s3file_free(s);
+    } else if (n == 4 && !strcmp(w[1], "mdef")) {
+        s3file_t *s;
+        bin_mdef_t *m;
+        if ((b = load_src(w[2], w[3], &len)) == NULL) { emit(" bad-src"); return; }
+        s = s3file_init(b, len);
+        m = bin_mdef_read_s3file(s, 0);
+        if (m == NULL)
+            emit(" rej");
+        else {
+            unsigned h1 = 7, h2 = 7;
+            int i;
+            for (i = 0; i < m->n_sen; i++) {
+                h1 = h1 * 31u + (unsigned)(uint16)m->cd2cisen[i];
+                h2 = h2 * 31u + (unsigned)(uint16)m->sen2cimap[i];
+            }
+            emit(" ok %d %d %d %d %d %d %d %d %d %d %ld %ld %ld %u %u", m->alloc_mode == BIN_MDEF_IN_MEMORY ? 1 : 0,
+                 m->n_ciphone, m->n_phone, m->n_emit_state, m->n_ci_sen, m->n_sen, m->n_tmat, m->n_sseq, m->n_cd_tree,
+                 m->sil, (long)((char *)m->cd_tree - m->ciname[0]), (long)((char *)m->phone - m->ciname[0]),
+                 (long)((char *)m->sseq[0] - m->ciname[0]), h1, h2);
+        }
+        bin_mdef_free(m);
+        s3file_free(s);
     } else if (n == 6 && !strcmp(w[1], "mixw")) {
         s3file_t *s;
         gauden_t g;
